@@ -1,7 +1,10 @@
 use crate::{
     iter::{
         atomic_iter::{AtomicIter, AtomicIterWithInitialLen},
-        buffered::{buffered_chunk::BufferedChunk, buffered_iter::BufferedIter, vec::BufferedVec},
+        buffered::{
+            buffered_chunk::BufferedChunk, buffered_iter::BufferedIter, raw_chunk::RawChunk,
+            vec::BufferedVec,
+        },
     },
     next::NextChunk,
     AtomicCounter, ConcurrentIter, Next,
@@ -60,8 +63,7 @@ impl<T: Send + Sync> ConIterOfVec<T> {
         let len = end_idx - begin_idx;
 
         let ptr = vec.as_mut_ptr().add(begin_idx);
-        let vec = Vec::from_raw_parts(ptr, len, 0);
-        vec.into_iter()
+        RawChunk::new(ptr, len)
     }
 
     unsafe fn split_off_right(&self, left_len: usize) -> Vec<T> {
